@@ -4,7 +4,7 @@
    known q h = bits [0,8q] and [57,63] of h = what a bucket keeps next to an element of class q. *)
 From Coq Require Import ZArith List.
 From MomoCommon Require Import GenPrelude.
-From C12 Require Gen_Base Gen_O2 Gen_O2MP Gen_P4 Gen_One Known P4_Model P4_Slot P4_Bucket O2_Slot Chain O2_Bucket MP_Open2N2 TableO2 TableO2_Proofs TableP4 TableP4_Proofs.
+From C12 Require Gen_Base Gen_O2 Gen_O2MP Gen_P4 Gen_One Known P4_Model P4_Slot P4_Bucket O2_Slot Chain O2_Bucket MP_Open2N2 TableO2 TableO2_Proofs TableP4 TableP4_Proofs TableOne TableOne_Proofs.
 Import ListNotations.
 Local Open Scope Z_scope.
 
@@ -151,13 +151,13 @@ Proof. exact Chain.o2_chain_placement_equiv. Qed.
 Print Assumptions C12_open2n2_chain_placement_equiv.
 
 (* BucketOne (64-bit state): AddCrt then GetHashCodePart returns the low 63 bits of h without ever calling the full
-   getter; the state a later Find compares against and every start bucket up to 2^62 buckets read only those bits. *)
+   getter; the state a later Find compares against and every start bucket up to 2^63 buckets read only those bits. *)
 Theorem C12_one_reconstruct :
   forall h full iter, 0 <= h < 2 ^ 64 ->
     exists st, Gen_One.AddCrt 0 h = Ok (tt, st) /\ Gen_One.IsFull st = true /\
       Gen_One.GetHashCodePart st full iter iter = Ok (h mod 2 ^ 63) /\
       Gen_One.pvGetHashState (h mod 2 ^ 63) = Gen_One.pvGetHashState h /\
-      (forall L, 0 <= L <= 62 -> Gen_Base.GetStartBucketIndex (h mod 2 ^ 63) (2 ^ L) = Gen_Base.GetStartBucketIndex h (2 ^ L)).
+      (forall L, 0 <= L <= 63 -> Gen_Base.GetStartBucketIndex (h mod 2 ^ 63) (2 ^ L) = Gen_Base.GetStartBucketIndex h (2 ^ L)).
 Proof. exact Chain.one_reconstruct. Qed.
 Print Assumptions C12_one_reconstruct.
 
@@ -221,7 +221,15 @@ Theorem C12_open2n2_relocate_item_keeps_true_hash_path :
         TableO2_Proofs.Tinv hash L told' /\ TableO2_Proofs.Tinv hash newL tnew' /\
         TableO2.cnt (told' i) = TableO2.cnt (told i) - 1 /\ (forall j, j <> i -> told' j = told j) /\
         (forall k, TableO2_Proofs.Present L told k -> TableO2_Proofs.Present L told' k \/ TableO2_Proofs.Present newL tnew' k) /\
-        (forall k, TableO2_Proofs.Present newL tnew k -> TableO2_Proofs.Present newL tnew' k)
+        (forall k, TableO2_Proofs.Present newL tnew k -> TableO2_Proofs.Present newL tnew' k) /\
+        (* position level: exactly the element of the lowest occupied slot leaves the old table and enters a free slot of the new one *)
+        (let key := TableO2.bky (told i) (3 - TableO2.cnt (told i)) in
+         TableO2_Proofs.At L told key i (3 - TableO2.cnt (told i)) /\
+         (forall k b s, TableO2_Proofs.At L told' k b s <->
+                        (TableO2_Proofs.At L told k b s /\ ~ (b = i /\ s = 3 - TableO2.cnt (told i)))) /\
+         exists b0 s0, ~ TableO2_Proofs.occ (tnew b0) s0 /\
+           forall k b s, TableO2_Proofs.At newL tnew' k b s <->
+                         (TableO2_Proofs.At newL tnew k b s \/ (k = key /\ b = b0 /\ s = s0 /\ 0 <= b0 < 2 ^ newL)))
     | Exn => True
     | _ => False
     end.
@@ -381,3 +389,123 @@ Theorem C12_open2n2_getter_call_observer :
     TableO2.getter_used b i L newL slot = O2_Slot.o2_full_used (TableO2.bhp b slot) L newL.
 Proof. exact TableO2_Proofs.getter_used_spec. Qed.
 Print Assumptions C12_open2n2_getter_call_observer.
+
+(* ---------------------------------------------------------------------------------------------------------------
+   Round 4.  Budgeted / throwing migration (a full getter that throws after `budget` calls: pvRelocateItems() swallows the
+   exception and keeps the older generation chained) and chains of generations. *)
+
+(* Open2N2: whatever prefix of elements was migrated before the throw, BOTH generations satisfy their table invariants
+   (every stored element on its true-hash path within the recorded bound) and every key of either table is still in the
+   old or in the new one; without a throw the processed buckets are empty. *)
+Theorem C12_open2n2_throwing_migration_keeps_both_generations :
+  forall hash, (forall k, 0 <= hash k < 2 ^ 64) ->
+  forall L newL budget, 0 <= L -> L < newL <= 63 ->
+  forall n told tnew i calls, 0 <= i -> i + Z.of_nat n <= 2 ^ L -> TableO2_Proofs.Tinv hash L told -> TableO2_Proofs.Tinv hash newL tnew ->
+    (forall j, 0 <= j < i -> TableO2.cnt (told j) = 0) ->
+    match TableO2.migrate_from_c hash n told tnew L newL i budget calls with
+    | Ok (told', tnew', _, thrown) => TableO2_Proofs.mig_post hash L newL told tnew told' tnew' /\
+                                      (thrown = false -> forall j, 0 <= j < i + Z.of_nat n -> TableO2.cnt (told' j) = 0)
+    | Exn => True
+    | _ => False
+    end.
+Proof. exact TableO2_Proofs.migrate_from_c_spec. Qed.
+Print Assumptions C12_open2n2_throwing_migration_keeps_both_generations.
+
+(* Open2N2, chain of older generations (oldest first, any sizes below newL) into the newest table, with a throwing getter:
+   all remaining generations and the newest table keep their invariants, no key of any generation is lost, and without a
+   throw no older generation remains. *)
+Theorem C12_open2n2_chained_generations :
+  forall hash, (forall k, 0 <= hash k < 2 ^ 64) ->
+  forall newL budget, newL <= 63 -> forall gens tnew calls,
+    TableO2_Proofs.gens_ok hash newL gens -> TableO2_Proofs.Tinv hash newL tnew ->
+    match TableO2.migrate_gens hash gens tnew newL budget calls with
+    | Ok (gens', tnew', _, thrown) =>
+        TableO2_Proofs.gens_ok hash newL gens' /\ TableO2_Proofs.Tinv hash newL tnew' /\
+        (forall k, TableO2_Proofs.in_gens gens k \/ TableO2_Proofs.Present newL tnew k ->
+                   TableO2_Proofs.in_gens gens' k \/ TableO2_Proofs.Present newL tnew' k) /\
+        (thrown = false -> gens' = [])
+    | Exn => True
+    | _ => False
+    end.
+Proof. exact TableO2_Proofs.migrate_gens_spec. Qed.
+Print Assumptions C12_open2n2_chained_generations.
+
+Theorem C12_limp4_throwing_migration_keeps_both_generations :
+  forall H mm hash, 4 <= H <= 8 -> 1 <= mm <= 4 -> (forall k, 0 <= hash k < 2 ^ 64) ->
+  forall L newL budget, 0 <= L -> L < newL <= 63 ->
+  forall n told tnew i calls, 0 <= i -> i + Z.of_nat n <= 2 ^ L ->
+    TableP4_Proofs.PTinv H hash L told -> TableP4_Proofs.PTinv H hash newL tnew ->
+    (forall j, 0 <= j < i -> TableP4.pcnt (told j) = 0) ->
+    match TableP4.pmigrate_from_c H mm hash n told tnew L newL i budget calls with
+    | Ok (told', tnew', _, thrown) => TableP4_Proofs.pmig_post H hash L newL told tnew told' tnew' /\
+                                      (thrown = false -> forall j, 0 <= j < i + Z.of_nat n -> TableP4.pcnt (told' j) = 0)
+    | Exn => True
+    | _ => False
+    end.
+Proof. exact TableP4_Proofs.pmigrate_from_c_spec. Qed.
+Print Assumptions C12_limp4_throwing_migration_keeps_both_generations.
+
+Theorem C12_limp4_chained_generations :
+  forall H mm hash, 4 <= H <= 8 -> 1 <= mm <= 4 -> (forall k, 0 <= hash k < 2 ^ 64) ->
+  forall newL budget, newL <= 63 -> forall gens tnew calls,
+    TableP4_Proofs.pgens_ok H hash newL gens -> TableP4_Proofs.PTinv H hash newL tnew ->
+    match TableP4.pmigrate_gens H mm hash gens tnew newL budget calls with
+    | Ok (gens', tnew', _, thrown) =>
+        TableP4_Proofs.pgens_ok H hash newL gens' /\ TableP4_Proofs.PTinv H hash newL tnew' /\
+        (forall k, TableP4_Proofs.pin_gens gens k \/ TableP4_Proofs.PPresent newL tnew k ->
+                   TableP4_Proofs.pin_gens gens' k \/ TableP4_Proofs.PPresent newL tnew' k) /\
+        (thrown = false -> gens' = [])
+    | Exn => True
+    | _ => False
+    end.
+Proof. exact TableP4_Proofs.pmigrate_gens_spec. Qed.
+Print Assumptions C12_limp4_chained_generations.
+
+(* BucketOne at table level (1-slot buckets, linear probing, pvFind walks while WasFull, GetMaxProbe = 2^L - 1):
+   element_found_after_growth -- after migrating every element with the 63-bit code (the full getter is never called) every
+   key is on the linear probe path of the home bucket of its TRUE hash, at a probe <= GetMaxProbe, every earlier bucket of
+   the path in the WasFull state, and the bucket's hash state is the one Find compares against for the true hash. *)
+Theorem C12_one_element_found_after_growth :
+  forall hash, (forall k, 0 <= hash k < 2 ^ 64) ->
+  forall L newL told, 0 <= L -> L < newL <= 63 -> TableOne_Proofs.OTinv hash L told ->
+    match TableOne.omigrate hash told L newL with
+    | Ok (_, tnew) => TableOne_Proofs.OTinv hash newL tnew /\
+                      (forall k, TableOne_Proofs.OPresent L told k -> TableOne_Proofs.OFound hash newL tnew k)
+    | Exn => True
+    | _ => False
+    end.
+Proof. exact TableOne_Proofs.omigrate_found. Qed.
+Print Assumptions C12_one_element_found_after_growth.
+
+Theorem C12_one_insert_establishes_table_invariant :
+  forall hash L, 0 <= L <= 63 -> forall keys t, TableOne_Proofs.OTinv hash L t ->
+    match TableOne.oinsert_all hash t L keys with
+    | Ok t' => TableOne_Proofs.OTinv hash L t' /\ (forall k, TableOne_Proofs.OPresent L t k -> TableOne_Proofs.OPresent L t' k) /\
+               (forall k, In k keys -> TableOne_Proofs.OPresent L t' k)
+    | Exn => True
+    | _ => False
+    end.
+Proof. exact TableOne_Proofs.oinsert_all_inv. Qed.
+Print Assumptions C12_one_insert_establishes_table_invariant.
+
+(* EXACTLY one generation: start from two generations in which no key is stored twice (Good = both table invariants + Sep);
+   run the migration loop with a full getter that may throw after any number of calls.  Whatever prefix of elements was
+   migrated: both generations satisfy their table invariants, no key is stored twice, and every key that was in one of them
+   is now in exactly one of them -- on the probe path of its TRUE hash, by the invariants; without a throw it is Found in
+   the newest table.  (C12's side of what C11 proves abstractly about failed relocations.) *)
+Theorem C12_open2n2_throwing_migration_exactly_one_generation :
+  forall hash, (forall k, 0 <= hash k < 2 ^ 64) ->
+  forall L newL budget told tnew calls, 0 <= L -> L < newL <= 63 -> TableO2_Proofs.Good hash L newL told tnew ->
+    match TableO2.migrate_from_c hash (Z.to_nat (2 ^ L)) told tnew L newL 0 budget calls with
+    | Ok (told', tnew', _, thrown) =>
+        TableO2_Proofs.Good hash L newL told' tnew' /\
+        (forall k, TableO2_Proofs.Present L told k \/ TableO2_Proofs.Present newL tnew k ->
+           (TableO2_Proofs.Present L told' k \/ TableO2_Proofs.Present newL tnew' k) /\
+           ~ (TableO2_Proofs.Present L told' k /\ TableO2_Proofs.Present newL tnew' k)) /\
+        (thrown = false -> forall k, TableO2_Proofs.Present L told k \/ TableO2_Proofs.Present newL tnew k ->
+           TableO2_Proofs.Found hash newL tnew' k)
+    | Exn => True
+    | _ => False
+    end.
+Proof. exact TableO2_Proofs.migrate_from_c_exactly_one. Qed.
+Print Assumptions C12_open2n2_throwing_migration_exactly_one_generation.
